@@ -16,6 +16,9 @@ mod world {
     pub fn cb_enter() -> bool {
         false
     }
+    pub fn exit(code: i32) -> ! {
+        std::process::exit(code)
+    }
     /// a user value's destructor prints to the real stdout
     pub fn noise(text: &str) {
         use std::io::Write;
@@ -42,8 +45,12 @@ fn main() {
         Ok(m) => m,
         Err(_) => std::process::exit(93),
     };
-    let parser = shape::build_opts(&opts);
-    let v = parser.run();
+    let rest: Vec<Vec<u8>> = std::env::args_os()
+        .skip(1)
+        .map(|a| std::os::unix::ffi::OsStringExt::into_vec(a))
+        .collect();
+    let entry = shape::entry_for(&opts, &rest);
+    let v = shape::run_via(&opts, entry);
     let _ = std::fs::write(&marker, format!("{:?}", v));
     std::process::exit(7);
 }
